@@ -25,6 +25,9 @@ default_path_config = 'local'
 
 #########################################################
 # Config for FindInAll
+_finders_by_type = {}  # type: ignore
+
+
 def get_finder_for(search_sid, config=None):  # get finder by Sid and optional config
     """
     Configuration used by FindInAll, to define which Finder is used for a given Search Sid.
@@ -46,21 +49,25 @@ def get_finder_for(search_sid, config=None):  # get finder by Sid and optional c
     from spil_sid_conf import projects, asset_types  # type: ignore
     from spil import FindInConstants, FindInPaths, Finder
 
-    finder_paths = FindInPaths()
-    finder_projects = FindInConstants("project", projects)
-    finder_types = FindInConstants("type", ["a", "s"], parent_source=finder_projects)
-    finder_assettypes = FindInConstants('assettype', asset_types, parent_source=finder_types)
-    finder_asset_states = FindInConstants('state', ["w", "p"], parent_source=finder_paths)
+    # The Finders are created once: FindInAll groups the typed searches by Finder instance
+    # (a sorted search ">" must see all the typed searches of an expression together).
+    finders_by_type = _finders_by_type
+    if not finders_by_type:
+        finder_paths = FindInPaths()
+        finder_projects = FindInConstants("project", projects)
+        finder_types = FindInConstants("type", ["a", "s"], parent_source=finder_projects)
+        finder_assettypes = FindInConstants('assettype', asset_types, parent_source=finder_types)
+        finder_asset_states = FindInConstants('state', ["w", "p"], parent_source=finder_paths)
 
-    finders_by_type = {
-        'project': finder_projects,
-        'asset': finder_types,
-        'shot': finder_types,
-        'asset__assettype': finder_assettypes,
-        'asset__state': finder_asset_states,
-        'shot__state': finder_asset_states,
-        'default': finder_paths
-    }
+        finders_by_type.update({
+            'project': finder_projects,
+            'asset': finder_types,
+            'shot': finder_types,
+            'asset__assettype': finder_assettypes,
+            'asset__state': finder_asset_states,
+            'shot__state': finder_asset_states,
+            'default': finder_paths
+        })
 
     finder: Finder = finders_by_type.get(search_sid.type, {}) or finders_by_type.get('default', {})
     if finder:
